@@ -1,0 +1,11 @@
+//go:build verif
+
+package fischlin
+
+// Contracts for the deductive checker in /verif (comment-only; compiled only under the verif tag).
+
+//@ func NewCompiler
+//@   property C03, C08
+//@   ensures (sigmaProtocol == nil || prng == nil) ==> err != nil
+//@   ensures err == nil ==> result != nil && result.prng == prng && result.sigmaProtocol == sigmaProtocol
+//@   ensures forall x V :: !culprit(err, x)
